@@ -34,34 +34,42 @@ ASSUMPTIONS = ['selections are fresh InequalitySubsetState objects per compariso
                'numeric and string keys are never joined with each other', 'sampling, not proof']
 PROBES = ['shape_1_1', 'shape_n_n', 'shape_1_n', 'shape_n_1', 'chain_len_ge_2', 'cyclic_graph', 'incompatible_on_cycle', 'several_partners_answer',
           'joinlink_added', 'joinlink_removed', 'key_updated', 'partner_removed_from_collection', 'mixed_numeric_dtype', 'mixed_string_width',
-          'empty_selection', 'view_compare']
+          'empty_selection', 'view_compare', 'big_tables', 'join_replaced', 'join_by_label']
 
 WEIGHTS = {'join': 7, 'joinlink': 2, 'remove_joinlink': 1, 'upd': 2, 'remove': 0.5, 'compare': 7, 'failing_eval': 1.5}
 KEYKINDS = ['int', 'float', 'sshort', 'slong']
 
 
-def keycol(kind, vs, n):
+def keycol(kind, vs, n, nkeys=5):
     rs = np.random.RandomState(vs)
-    base = rs.randint(0, 5, size=n)
+    base = rs.randint(0, nkeys, size=n)
     if kind == 'int':
         return base.astype(np.int64)
     if kind == 'float':
         return base.astype(float)
+    letters = [chr(97 + i) for i in range(max(5, nkeys))]
     if kind == 'sshort':
-        return np.array(['a', 'b', 'c', 'd', 'e'])[base]              # <U1
-    return np.array(['a', 'b', 'c', 'dd', 'eee'])[base]               # <U3 when 'eee' is present, else narrower
+        return np.array(letters)[base]                                # <U1
+    words = ['a', 'b', 'c', 'dd', 'eee'] + [l * (1 + i % 3) for i, l in enumerate(letters)][5:]    # ... fff g hh iii
+    return np.array(words)[base]                                      # <U3 when a long one is present, else narrower
 
 
 def generate(rng, cfg, guards):
     n = rng.randrange(4, cfg['max_ops'] + 1)
     nt = rng.randrange(2, 5)
     family = rng.pick(['num', 'num', 'str'])
+    big = rng.chance(0.2)
     ops = []
     for i in range(nt):
         kinds = [rng.pick(['int', 'float'] if family == 'num' else ['sshort', 'slong']) for _ in range(rng.randrange(2, 4))]
         if 'C11-nn-mixed-storage' in guards:
             kinds = [kinds[0]] * len(kinds)
-        ops.append(['table', rng.randrange(3, 8), kinds, rng.randrange(10000)])
+        # size knob: numpy switches membership algorithms with the sizes of the two key arrays (np.isin), so some runs use
+        # tables of 40-160 rows with many duplicate keys
+        if big:
+            ops.append(['table', rng.randrange(40, 160), kinds, rng.randrange(10000), rng.pick([5, 8, 12])])
+        else:
+            ops.append(['table', rng.randrange(3, 8), kinds, rng.randrange(10000)])
     if 'C11-nn-mixed-storage' in guards:
         # all tables use one key storage type in runs that may build n-n joins
         k0 = ops[0][2][0]
@@ -76,7 +84,7 @@ def generate(rng, cfg, guards):
     while len(ops) < n:
         k = rng.wpick(pairs)
         if k == 'join':
-            ops.append([k, r8(), r8(), rng.pick(['1-1', '1-1', 'n-n', '1-n', 'n-1']), [r8(), r8()], [r8(), r8()]])
+            ops.append([k, r8(), r8(), rng.pick(['1-1', '1-1', 'n-n', '1-n', 'n-1']), [r8(), r8()], [r8(), r8()], rng.chance(0.35)])
         elif k == 'joinlink':
             ops.append([k, r8(), r8(), r8(), r8()])
         elif k in ('remove_joinlink', 'remove'):
@@ -114,6 +122,7 @@ def execute(case, res):
     joins = {}          # (i, j) -> (cols_i, cols_j) ; stored in both directions like glue does
     joinlinks = []
     kinds = {}
+    nkeys = {}
 
     def kcols(i):
         return [c for c in tables[i].main_components if c.label.startswith('k')]
@@ -130,9 +139,12 @@ def execute(case, res):
             d = Data(label='t%d' % len(tables))
             n = op[1]
             for j, kind in enumerate(op[2]):
-                d.add_component(keycol(kind, op[3] + j, n), 'k%d' % j)
+                d.add_component(keycol(kind, op[3] + j, n, op[4] if len(op) > 4 else 5), 'k%d' % j)
+            if n >= 40:
+                res.probe('big_tables')
             d.add_component(W.values(op[3] + 9, (n,)), 'v')
             kinds[len(tables)] = op[2]
+            nkeys[len(tables)] = op[4] if len(op) > 4 else 5
             tables.append(d)
             dc.append(d)
         elif k == 'join':
@@ -151,7 +163,15 @@ def execute(case, res):
                 ci, cj = ki[:2], [kj[op[5][0] % len(kj)]]
             if any(isinstance(l, JoinLink) and {l.data1, l.data2} == {tables[i], tables[j]} for l in joinlinks):
                 continue
-            tables[i].join_on_key(tables[j], tuple(ci) if len(ci) > 1 else ci[0], tuple(cj) if len(cj) > 1 else cj[0])
+            if (i, j) in joins:
+                res.probe('join_replaced')
+            if len(op) > 6 and op[6]:
+                # the key columns named by their labels, as a script would
+                res.probe('join_by_label')
+                a, b = [c.label for c in ci], [c.label for c in cj]
+                tables[i].join_on_key(tables[j], tuple(a) if len(a) > 1 else a[0], tuple(b) if len(b) > 1 else b[0])
+            else:
+                tables[i].join_on_key(tables[j], tuple(ci) if len(ci) > 1 else ci[0], tuple(cj) if len(cj) > 1 else cj[0])
             set_join(i, j, tuple(ci), tuple(cj))
             res.probe({'1-1': 'shape_1_1', 'n-n': 'shape_n_n', '1-n': 'shape_1_n', 'n-1': 'shape_n_1'}[shape])
         elif k == 'joinlink':
@@ -182,7 +202,7 @@ def execute(case, res):
             n = tables[i].shape[0]
             if c.label.startswith('k'):
                 kind = kinds[i][int(c.label[1:])]
-                tables[i].update_components({c: keycol(kind, op[3], n)})
+                tables[i].update_components({c: keycol(kind, op[3], n, nkeys.get(i, 5))})
                 res.probe('key_updated')
             else:
                 tables[i].update_components({c: W.values(op[3], (n,))})
